@@ -1,6 +1,8 @@
 package protowire
 
 import (
+	"math"
+
 	vrt "github.com/cloudwego/dynamicgo/internal/zzverif"
 	gpw "google.golang.org/protobuf/encoding/protowire"
 )
@@ -42,4 +44,146 @@ func VerifC20_ConsumeVarint() {
 		vrt.Reach("err")
 		vrt.Assert(n1 < 0, "C20.varint.consume.err")
 	}
+}
+
+func init() {
+	vrt.Register("VerifC20_Kinds", VerifC20_Kinds)
+	vrt.Register("VerifC20_Fixed", VerifC20_Fixed)
+	vrt.Register("VerifC20_Bytes", VerifC20_Bytes)
+}
+
+func verifSame(a, b []byte) bool {
+	if len(a) != len(b) {
+		return false
+	}
+	for i := range a {
+		if a[i] != b[i] {
+			return false
+		}
+	}
+	return true
+}
+
+// VerifC20_Kinds: every varint-coded kind: encoder byte-identical to the reference encoding of the
+// same value, decoder inverse, for every value of the kind (one solver query each, no enumeration).
+func VerifC20_Kinds() {
+	var enc BinaryEncoder
+	var dec BinaryDecoder
+	u64 := vrt.U64()
+	u32 := vrt.U32()
+	switch vrt.Param("K") {
+	case 0: // int32 / enum: sign-extended to 64 bits
+		v := int32(u32)
+		b := enc.EncodeInt32(nil, v)
+		vrt.Assert(verifSame(b, gpw.AppendVarint(nil, uint64(int64(v)))), "C20.kind.int32.encoding")
+		r, n := dec.DecodeInt32(b)
+		vrt.Assert(r == v && n == len(b), "C20.kind.int32.roundtrip")
+		b2 := enc.EncodeEnum(nil, v)
+		vrt.Assert(verifSame(b2, gpw.AppendVarint(nil, uint64(int64(v)))), "C20.kind.enum.encoding")
+	case 1:
+		v := int32(u32)
+		b := enc.EncodeSint32(nil, v)
+		vrt.Assert(verifSame(b, gpw.AppendVarint(nil, gpw.EncodeZigZag(int64(v)))), "C20.kind.sint32.encoding")
+		r, n := dec.DecodeSint32(b)
+		vrt.Assert(r == v && n == len(b), "C20.kind.sint32.roundtrip")
+	case 2:
+		b := enc.EncodeUint32(nil, u32)
+		vrt.Assert(verifSame(b, gpw.AppendVarint(nil, uint64(u32))), "C20.kind.uint32.encoding")
+		r, n := dec.DecodeUint32(b)
+		vrt.Assert(r == u32 && n == len(b), "C20.kind.uint32.roundtrip")
+	case 3:
+		v := int64(u64)
+		b := enc.EncodeInt64(nil, v)
+		vrt.Assert(verifSame(b, gpw.AppendVarint(nil, u64)), "C20.kind.int64.encoding")
+		r, n := dec.DecodeInt64(b)
+		vrt.Assert(r == v && n == len(b), "C20.kind.int64.roundtrip")
+	case 4:
+		v := int64(u64)
+		b := enc.EncodeSint64(nil, v)
+		vrt.Assert(verifSame(b, gpw.AppendVarint(nil, gpw.EncodeZigZag(v))), "C20.kind.sint64.encoding")
+		r, n := dec.DecodeSint64(b)
+		vrt.Assert(r == v && n == len(b), "C20.kind.sint64.roundtrip")
+		vrt.Assert(EncodeZigZag(v) == gpw.EncodeZigZag(v), "C20.zigzag.encode")
+		vrt.Assert(DecodeZigZag(u64) == gpw.DecodeZigZag(u64), "C20.zigzag.decode")
+		vrt.Assert(DecodeZigZag(EncodeZigZag(v)) == v, "C20.zigzag.inverse")
+	case 5:
+		b := enc.EncodeUint64(nil, u64)
+		vrt.Assert(verifSame(b, gpw.AppendVarint(nil, u64)), "C20.kind.uint64.encoding")
+		r, n := dec.DecodeUint64(b)
+		vrt.Assert(r == u64 && n == len(b), "C20.kind.uint64.roundtrip")
+	case 6:
+		v := vrt.Bool()
+		b := enc.EncodeBool(nil, v)
+		vrt.Assert(verifSame(b, gpw.AppendVarint(nil, gpw.EncodeBool(v))), "C20.kind.bool.encoding")
+		r, n := dec.DecodeBool(b)
+		vrt.Assert(r == v && n == len(b), "C20.kind.bool.roundtrip")
+	}
+	vrt.Reach("done")
+}
+
+// VerifC20_Fixed: fixed-width kinds and the fixed decoders on arbitrary short inputs.
+func VerifC20_Fixed() {
+	var enc BinaryEncoder
+	var dec BinaryDecoder
+	u64 := vrt.U64()
+	u32 := vrt.U32()
+	b := enc.EncodeFixed32(nil, u32)
+	vrt.Assert(verifSame(b, gpw.AppendFixed32(nil, u32)), "C20.kind.fixed32.encoding")
+	r32, n := dec.DecodeFixed32(b)
+	vrt.Assert(r32 == u32 && n == 4, "C20.kind.fixed32.roundtrip")
+	b = enc.EncodeSfixed32(nil, int32(u32))
+	vrt.Assert(verifSame(b, gpw.AppendFixed32(nil, u32)), "C20.kind.sfixed32.encoding")
+	s32, n := dec.DecodeSfixed32(b)
+	vrt.Assert(s32 == int32(u32) && n == 4, "C20.kind.sfixed32.roundtrip")
+	b = enc.EncodeFloat32(nil, math.Float32frombits(u32))
+	vrt.Assert(verifSame(b, gpw.AppendFixed32(nil, u32)), "C20.kind.float.encoding")
+	f32, n := dec.DecodeFloat32(b)
+	vrt.Assert(math.Float32bits(f32) == u32 && n == 4, "C20.kind.float.roundtrip")
+	b = enc.EncodeFixed64(nil, u64)
+	vrt.Assert(verifSame(b, gpw.AppendFixed64(nil, u64)), "C20.kind.fixed64.encoding")
+	r64, n := dec.DecodeFixed64(b)
+	vrt.Assert(r64 == u64 && n == 8, "C20.kind.fixed64.roundtrip")
+	b = enc.EncodeSfixed64(nil, int64(u64))
+	vrt.Assert(verifSame(b, gpw.AppendFixed64(nil, u64)), "C20.kind.sfixed64.encoding")
+	s64, n := dec.DecodeSfixed64(b)
+	vrt.Assert(s64 == int64(u64) && n == 8, "C20.kind.sfixed64.roundtrip")
+	b = enc.EncodeDouble(nil, math.Float64frombits(u64))
+	vrt.Assert(verifSame(b, gpw.AppendFixed64(nil, u64)), "C20.kind.double.encoding")
+	f64, n := dec.DecodeDouble(b)
+	vrt.Assert(math.Float64bits(f64) == u64 && n == 8, "C20.kind.double.roundtrip")
+	// decoders on arbitrary short inputs agree with the reference on (value, consumed / error)
+	in := vrt.Bytes(vrt.Param("N"))
+	v1, n1 := ConsumeFixed32(in)
+	v2, n2 := gpw.ConsumeFixed32(in)
+	vrt.Assert((n2 < 0 && n1 < 0) || (n1 == n2 && v1 == v2), "C20.fixed32.consume")
+	w1, m1 := ConsumeFixed64(in)
+	w2, m2 := gpw.ConsumeFixed64(in)
+	vrt.Assert((m2 < 0 && m1 < 0) || (m1 == m2 && w1 == w2), "C20.fixed64.consume")
+	vrt.Reach("done")
+}
+
+// VerifC20_Bytes: length-delimited encode/decode and ConsumeBytes on arbitrary inputs of N bytes.
+func VerifC20_Bytes() {
+	var enc BinaryEncoder
+	var dec BinaryDecoder
+	in := vrt.Bytes(vrt.Param("N"))
+	v1, n1, all1 := ConsumeBytes(in)
+	v2, n2 := gpw.ConsumeBytes(in)
+	if n2 >= 0 {
+		vrt.Reach("ok")
+		vrt.Assert(all1 == n2 && verifSame(v1, v2), "C20.bytes.consume.ok")
+		_ = n1
+	} else {
+		vrt.Reach("err")
+		vrt.Assert(all1 < 0 || n1 < 0, "C20.bytes.consume.err")
+	}
+	s := vrt.Bytes(vrt.Param("L"))
+	b := enc.EncodeBytes(nil, s)
+	vrt.Assert(verifSame(b, gpw.AppendBytes(nil, s)), "C20.kind.bytes.encoding")
+	b2 := enc.EncodeString(nil, string(s))
+	vrt.Assert(verifSame(b2, gpw.AppendBytes(nil, s)), "C20.kind.string.encoding")
+	rb, _, all := dec.DecodeBytes(b)
+	vrt.Assert(all == len(b) && verifSame(rb, s), "C20.kind.bytes.roundtrip")
+	rs, _, all := dec.DecodeString(b2)
+	vrt.Assert(all == len(b2) && verifSame([]byte(rs), s), "C20.kind.string.roundtrip")
 }
